@@ -14,7 +14,9 @@
   * C18_stream_parse_eq_bytes_parse      for ARBITRARY bytes and every chunk schedule the decoded policies (or the
                                          error) are those of the whole byte string; the parser never runs out of fuel
   * C18_stream_parse_chunking_invariant  two schedules of the same bytes decode alike
-  * C18_policy_position_exact_partial    for the text of a policy of C07's proved fragment under any admissible
+  * C18_policy_position_exact_partial    for the text of a policy of C07's proved fragment (`policyOK`: every node
+                                         kind incl. `like`; what it excludes is the tree of no Cedar text, see the
+                                         header of Properties/C07.lean) under any admissible
                                          layout, the decoded policy's `position` is (offset, line, column) of its
                                          first token (partial: the fragment);
                                          C18_policy_positions_exact_partial: texts of several policies, every
@@ -174,6 +176,11 @@ theorem C18_policy_position_exact_partial (bufLen : Nat) (hb : 4 ≤ bufLen) (rd
   refine ⟨?_, fun _ => rfl⟩
   rw [(C18_stream_parse_eq_bytes_parse bufLen hb rd hf).1, hbytes]
   exact C07_parse_text_roundtrip_partial full p lay h hadm
+
+/-- the fragment covers every node kind, `like` included: the condition `context.s like "a\**"` -/
+example : policyOK false { effect := .permit, conditions := [(true, .like (.access (.var .context) "s") [⟨false, [97, 42]⟩, ⟨true, []⟩])] } = true ∧
+    policyOK true { effect := .permit, conditions := [(true, .like (.access (.var .context) "s") [⟨false, [97, 42]⟩, ⟨true, []⟩])] } = true := by
+  decide +kernel
 
 /-- the same for a text of SEVERAL policies (`renderList full ps`): under any admissible layout and any chunk
     schedule the decoder returns exactly `ps`, the k-th policy positioned at the first token of the k-th rendering
